@@ -74,11 +74,16 @@ GivenShortcut == /\ phase = "Searching" /\ \A i \in 1..Len(hist) : hist[i] = "In
                  /\ \E i \in 1..Len(R.events) : R.events[i][1] = "given" /\ Class(R.events[i][2]) = "Optimal"
 
 IsKModel == R.cls \in {"kFlowDecomp", "kMinPathError", "kLeastAbsErrors", "kPathCover", "kFlowDecompCycles",
-                        "kMinPathErrorCycles", "kLeastAbsErrorsCycles", "kPathCoverCycles", "MinSetCover"}
-(* a k-model runs its solver once; the library saw an inconclusive status in that run *)
+                        "kMinPathErrorCycles", "kLeastAbsErrorsCycles", "kPathCoverCycles", "MinSetCover", "MinErrorFlow"}
+(* a k-model runs its solver once (MinErrorFlow with a few-values epsilon: twice, the second run refining the answer of the
+   first); the library saw an inconclusive status in one of these runs *)
 AnyInc == \E i \in 1..Len(R.events) : Class(R.events[i][2]) \in Inconclusive
 
-Clauses == {"NoProcessExit", "InconclusiveNeverSolved", "NoDataWhenUnsolved", "SolvedOnlyWhenSpecSolved",
+(* The library's own (custom, SIGALRM) time limit: R.overruns lists the events whose backend run the harness made last longer
+   than the whole-second ceiling of the budget, with use_also_custom_timeout switched on.  Nothing was injected into the
+   statuses of these runs: the library must itself have seen them end with the time limit. *)
+Overruns == IF "overruns" \in DOMAIN R THEN R.overruns ELSE <<>>
+Clauses == {"NoProcessExit", "InconclusiveNeverSolved", "NoDataWhenUnsolved", "SolvedOnlyWhenSpecSolved", "CustomTimeoutFires",
             "FaultFreeSolvesWithOptimum", "NeverNonMinimal", "EventsExplained", "ReturnsFalseWhenUnsolved",
             "PreSolveGettersRaise", "ReturnedModelProvenOptimal"}
 
@@ -90,6 +95,7 @@ Applicable(c) ==
     [] c = "InconclusiveNeverSolved" -> IsMinSearch \/ IsKModel
     [] c = "ReturnedModelProvenOptimal" -> R.cls = "NumPathsOptimization" /\ ObsSolved
     [] c = "EventsExplained" -> IsMinSearch
+    [] c = "CustomTimeoutFires" -> Len(Overruns) > 0
     [] OTHER -> TRUE
 
 Holds(c) ==
@@ -102,6 +108,9 @@ Holds(c) ==
     [] c = "EventsExplained" -> phase # "Rejected"
     [] c = "ReturnsFalseWhenUnsolved" -> ~ObsSolved => R.solve_ret # 1
     [] c = "PreSolveGettersRaise" -> R.pre_sol_exc # "none" /\ R.pre_obj_exc # "none"
+    [] c = "CustomTimeoutFires" ->
+          /\ \A i \in 1..Len(Overruns) : Overruns[i] \in 1..Len(R.events) /\ Class(R.events[Overruns[i]][2]) \in Inconclusive
+          /\ ~ObsSolved /\ ~GotData
     [] c = "ReturnedModelProvenOptimal" ->
           \* the last main invocation is the returned model's own run: it must have been seen as Optimal
           \E i \in 1..Len(R.events) : /\ IsMain(R, R.events[i]) /\ Class(R.events[i][2]) = "Optimal"
